@@ -665,6 +665,48 @@ pub fn excursion(rng: &mut Rng, ctx: &mut Ctx, p: &Profile) -> Vec<Op> {
     ops
 }
 
+/// a saved cursor that outlives a shrinking resize of the OTHER screen: save far right / down on one screen,
+/// switch, shrink, switch back, restore (any of the save / restore / switch spellings)
+pub fn stale_ctx(rng: &mut Rng, ctx: &mut Ctx, p: &Profile) -> Vec<Op> {
+    let mut ops = Vec::new();
+    let modes = ["47", "1047", "1049"];
+    let on_alt = rng.chance(60);
+    if on_alt {
+        ops.push(Op::Str(format!("\x1b[?{}h", rng.pick(&modes))));
+    }
+    ops.push(Op::Str(format!("\x1b[{};{}H", ctx.rows, ctx.cols)));
+    if rng.chance(40) {
+        ops.push(Op::Str("x".into()));
+    }
+    ops.push(Op::Str(rng.pick(&["\x1b7", "\x1b[s", "\x1b[?1048h"]).to_string()));
+    // switch to the other screen
+    if on_alt {
+        ops.push(Op::Str(format!("\x1b[?{}l", rng.pick(&["47", "1047"]))));
+    } else {
+        ops.push(Op::Str(format!("\x1b[?{}h", rng.pick(&["47", "1047"]))));
+    }
+    let c = if rng.chance(70) { rng.range(1, ctx.cols) } else { ctx.cols };
+    let r = if rng.chance(70) { rng.range(1, ctx.rows) } else { ctx.rows };
+    ops.push(Op::Resize(c, r));
+    ctx.cols = c;
+    ctx.rows = r;
+    if rng.chance(30) {
+        let k = rng.weighted(&p.weights);
+        ops.push(Op::Str(token(rng, ctx, k)));
+    }
+    // back, then restore
+    if on_alt {
+        ops.push(Op::Str(format!("\x1b[?{}h", rng.pick(&["47", "1047"]))));
+    } else {
+        ops.push(Op::Str(format!("\x1b[?{}l", rng.pick(&["47", "1047"]))));
+    }
+    ops.push(Op::Str(rng.pick(&["\x1b8", "\x1b[u", "\x1b[?1048l"]).to_string()));
+    if rng.chance(50) {
+        ops.push(Op::Str("yz".into()));
+    }
+    ops
+}
+
 pub fn gen_case(rng: &mut Rng, p: &Profile) -> Case {
     let (cols, rows) = geometry(rng, p);
     let limit = limit(rng);
@@ -677,6 +719,9 @@ pub fn gen_case(rng: &mut Rng, p: &Profile) -> Case {
     for _ in 0..n {
         if p.resize_pct > 0 && rng.chance(if p.name == "alt" { 6 } else { 2 }) {
             let ex = excursion(rng, &mut ctx, p);
+            ops.extend(ex);
+        } else if p.resize_pct > 0 && rng.chance(if p.name == "save" { 4 } else { 1 }) {
+            let ex = stale_ctx(rng, &mut ctx, p);
             ops.extend(ex);
         } else if rng.chance(p.resize_pct) {
             let (c, r) = match rng.below(6) {
